@@ -930,7 +930,7 @@ def _register_bounded2():
                         doc="BOUNDED stand-in: band-energy derivative relation at orthonormal coefficients (fixed Hamiltonian)"))
 
 
-def nat_grad_coarse_even_grid(xc, s=(6, 6, 8), pot="gth", unrestricted=None, kmesh=None, setk=None):
+def nat_grad_coarse_even_grid(xc, s=(6, 6, 8), pot="gth", unrestricted=None, kmesh=None, setk=None, species=("Li", "H")):
     def f(rng):
         """The derivative relation for a functional family / external potential / sampling; s = (6, 6, 8) is a user-chosen COARSE EVEN
         sampling (smaller than the default one): products of orbitals reach the Nyquist planes of the FFT box."""
@@ -941,7 +941,7 @@ def nat_grad_coarse_even_grid(xc, s=(6, 6, 8), pot="gth", unrestricted=None, kme
 
         eminus.config.backend = "numpy"
         eminus.config.verbose = "critical"
-        at = Atoms(["Li", "H"], [[0.2, 0.1, 0.3], [0.4, 0.2, 3.1]], ecut=4, a=[[6.0, 0.3, 0.1], [0.2, 6.5, 0.4], [0.5, 0.1, 7.0]],
+        at = Atoms(list(species), [[0.2, 0.1, 0.3], [0.4, 0.2, 3.1], [3.1, 2.9, 0.4]][: len(species)], ecut=4, a=[[6.0, 0.3, 0.1], [0.2, 6.5, 0.4], [0.5, 0.1, 7.0]],
                    unrestricted=unrestricted)
         at.s = list(s)
         if kmesh:
@@ -994,6 +994,14 @@ def _register_families():
                                           what="slope of the total energy vs 2 Re<grad, D>: TPSS, unrestricted, two k-points with weights (0.3, 0.7)"),
                         budget={"quick": 300, "thorough": 600}, doc="BOUNDED: derivative relation for a meta-GGA with unequal k-point weights (tau and its potential carry the same weights); default sampling (11, 11, 14): "
                             "on a coarser one aliasing gives grid points with tau < |grad n|^2 / (8 n) where Libxc clamps its inputs (1e-5 at (7, 7, 9) with unequal weights)"))
+    # LiH has NO non-local projectors (lmax = 0 for both species): systems of two species that both carry projectors (Si: s, s, p; C: s) exercise the
+    # species-dependent non-local term of H against the non-local energy
+    for tag, sp, unres, km in (("nonlocal_SiC_pbe", ("Si", "C"), False, None), ("nonlocal_CSiC_lda_pol_2k", ("C", "Si", "C"), True, (2, 1, 1))):
+        register(Obligation(name=f"C01.total_energy.slope_eq_2Re_grad_D.family.{tag}", prop="C01", engine="B", bounded=True,
+                            functions=["eminus.dft:get_grad", "eminus.dft:H", "eminus.gth:calc_Vnonloc", "eminus.energies:get_Enonloc", "eminus.gth:init_gth_nonloc"],
+                            run=BoundedNative(nat_grad_coarse_even_grid("pbe" if "pbe" in tag else "lda,vwn", s=(9, 9, 11), unrestricted=unres, kmesh=km, species=sp), 1, tol=1e-6,
+                                              what=f"slope of the total energy vs 2 Re<grad, D>: species {sp} (non-local projectors of two species), unrestricted = {unres}, kmesh = {km}"),
+                            budget={"quick": 300, "thorough": 600}, doc="BOUNDED: derivative relation with non-local projectors of two different species (H against the non-local energy)"))
     for tag, xc, pot, unres, km in cases:
         # SCAN on the DEFAULT sampling (11, 11, 14): on a coarser one aliasing gives grid points with tau < |grad n|^2 / (8 n), where Libxc
         # clamps sigma to 8 n tau inside the functional (its derivatives are then not those of the clamped function: 2e-2 at (7, 7, 9),
